@@ -1,6 +1,7 @@
 """C20 -- CP^1 points, disks, Moebius maps (O1, K1, K2, U1)."""
 from ..rules import cp1_rules as R
 from ..rules import sibling_rules as SI
+from ..rules import degree_rules as DG
 from ..rules.common import u1
 
 REL = R.CP_REL
@@ -22,6 +23,7 @@ def run(ctx):
     ctx.do(R.rule_k1, REL)
     ctx.do(R.rule_k2)
     ctx.do(SI.rule_k3)
+    ctx.do(DG.rule_hd2)
     ctx.do(u1, ENTRIES, min_functions=20)
     ctx.r.assume("stereographic formulas, Moebius images, double complement "
                  "and Fubini-Study quantities are numerical and not decided")
